@@ -22,6 +22,7 @@ License: 3-clause BSD. (See the COPYRIGHT file)
 
 from __future__ import annotations
 
+import math
 import socket
 
 from typing import TYPE_CHECKING, ClassVar
@@ -73,7 +74,10 @@ class TrafficRate(ExtendedCommunity):
         return value
 
     def __repr__(self) -> str:
-        return 'rate-limit:%d' % self.rate
+        # the peer chooses the four octets: an IEEE-754 NaN or infinity has no integer form, and
+        # '%d' raised ValueError / OverflowError while the API event was being rendered
+        rate = self.rate
+        return 'rate-limit:%d' % rate if math.isfinite(rate) else f'rate-limit:{rate}'
 
     @classmethod
     def unpack_attribute(cls, data: Buffer, negotiated: Negotiated | None = None) -> TrafficRate:
@@ -111,7 +115,8 @@ class TrafficRatePackets(ExtendedCommunity):
         return max(value, 0.0)
 
     def __repr__(self) -> str:
-        return 'rate-limit:%d:packets' % self.rate
+        rate = self.rate
+        return 'rate-limit:%d:packets' % rate if math.isfinite(rate) else f'rate-limit:{rate}:packets'
 
     @classmethod
     def unpack_attribute(cls, data: Buffer, negotiated: Negotiated | None = None) -> TrafficRatePackets:
